@@ -22,8 +22,8 @@ def reachable(F, root, prefix="varpulis_"):
     return seen
 
 
-def check(ctx, rule, roots, floor_fields):
-    F = ctx.facts()
+def check(ctx, rule, roots, floor_fields, cfg="default"):
+    F = ctx.facts(cfg)
     n = 0
     adts = []
     for r in roots:
@@ -43,7 +43,9 @@ def check(ctx, rule, roots, floor_fields):
                     continue
                 short = a.rsplit("::", 1)[1] + ("::" + v["n"] if it["k"] == "enum" else "")
                 key = "%s.%s" % (short, f["n"])
-                if ("skip_serializing_if" in toks or "skip_serializing" in toks) and "default" not in toks:
+                # serde's derived Deserialize reads a missing field of type Option<T> as None: such a field needs no `default`
+                is_option = f["ty"].startswith("core::option::Option<")
+                if ("skip_serializing_if" in toks or "skip_serializing" in toks) and "default" not in toks and not is_option:
                     ctx.violation(rule, key + ":skip-without-default", "%s.%s is omitted from the output under a condition (skip_serializing%s) but has no #[serde(default)]: a value serialised without the field cannot be deserialised (`missing field`), so a checkpoint holding such a value cannot be read back" % (
                         short, f["n"], "_if" if "skip_serializing_if" in toks else ""))
                 elif "skip" in toks or "skip_deserializing" in toks and "skip_serializing" not in toks:
